@@ -168,8 +168,16 @@ func runC12(r *Run) int {
 			h := Hash(s)
 			for level := 0; level < 3; level++ {
 				k := kindOf(v2, level)
-				nilRecv := (h>>uint(level))&1 == 1
+				mode := int((h >> uint(8*level)) % 3)
+				nilRecv := mode == lib.RecvNil
 				recv := lib.New(k)
+				if mode == lib.RecvQueried { // constructor result whose queries were called before Decode
+					recv.Observe()
+					if bv, ok, _ := recv.BaseView(); ok && !bv.IsNil() {
+						bv.Observe()
+					}
+					recv.IsEmpty()
+				}
 				_, err := decodeShape(w, k, s, nilRecv, recv, false)
 				// object left behind by a failed decode (every 4th string): observers must not panic;
 				// where its exported fields hold an unknown value of the level it must be invalid
@@ -262,9 +270,11 @@ func runC12(r *Run) int {
 		for level := 0; level < 3; level++ {
 			k := kindOf(v2, level)
 			var s string
+			hasT, hasE := false, false
 			if v2 {
 				v := seed2(rng, level)
 				s = v.String()
+				hasT, hasE = v.HasT, v.HasE
 			} else {
 				v := seed3(rng, level)
 				s = join3("CVSS:"+spec.V3Versions[v.Ver], toks3(&v, level, rng, true))
@@ -294,14 +304,12 @@ func runC12(r *Run) int {
 				} else if v2 {
 					name = spec.V2Metrics[f].Name
 					o.SetField(f, lib.U2[f])
-					// a v2 group metric only counts when its group is present
-					if f >= spec.V2E {
-						view := o
-						if f < spec.V2CDP && k == lib.K2E {
-							view, _, _ = o.TemporalView()
-						}
-						empty, ok, _ := view.IsEmpty()
-						must = ok && !empty
+					// a v2 group metric only counts when its group is present - known from the vector that
+					// was decoded, not from the library's own IsEmpty()
+					if f >= spec.V2CDP {
+						must = hasE
+					} else if f >= spec.V2E {
+						must = hasT
 					}
 				} else {
 					name = spec.V3Metrics[f].Name
